@@ -142,30 +142,75 @@ def restore_units():
 # case generation (JSON-able specs; every random choice from the given rng)
 # ----------------------------------------------------------------------------------------
 WORDS = ['a', 'bb', 'Fe', 'core', 'x1', 'A-b', 'q_r', 'site', 'Zz']
+# strings every codec must carry (DataModelDict's XML text codec included: observed): blanks inside, unicode, tabs,
+# line breaks, quotes, markup characters, long strings
+WORDS_ANY = ['a b', 'é', 'α-site', 'x\ty', 'q"uote', "it's", 'a<b&c>d', 'long' * 10, 'line\nbreak', 'back\\slash',
+             ']]>', '#', '{', '<', 'two  blanks']
+# strings only the tree and its JSON text carry (the XML text codec strips surrounding blanks, reads '' as None and
+# number / boolean look-alikes as numbers / booleans: assumption 2)
+WORDS_JSON = ['', ' lead', 'trail ', '12', 'true', 'nan', '1e5', 'None', '-0.0', 'inf']
+SPECIAL_FLOATS = [-0.0, 0.0, 1e300, -1e300, 1e-300, 5e-324, 1.7976931348623157e308, 2.2250738585072014e-308,
+                  float('nan'), float('inf'), float('-inf'), 0.1 + 0.2, 1 / 3]
+BIG_INTS = [2 ** 53 + 1, -(2 ** 53) - 1, 2 ** 62 + 3, -(2 ** 62) - 5, 2 ** 63 - 1, -(2 ** 63), 10 ** 18 + 7]
+# how an array is handed to atomman (same numbers, another memory layout / container / dtype)
+FORMS = ['c', 'c', 'c', 'fortran', 'strided', 'readonly', 'list', 'narrow']
 
 
-def _gen_arr(rng, lead, dt=None, trailing=None, bits=3):
-    dt = dt or rng.choice('fffiis')
+def _gen_arr(rng, lead, dt=None, trailing=None, bits=3, via='tree', scale=0):
+    """spec of one array.  dt: f(loat) i(nt) s(tring) b(ool).  `flavour` records a special value class:
+    'special' (signed zero, denormal / huge magnitudes, NaN, infinities - exact reproduction expected, no unit),
+    'big' (integers beyond 2**53), 'wild' (strings with blanks / unicode / markup).  `scale`: every float is
+    multiplied by 2**scale (exact)."""
+    dt = dt or rng.choice('fffffiiissb')
     if trailing is None:
-        trailing = rng.choice([[], [], [3], [2], [3, 3], [2, 2], [2, 3], [1], [1, 3]])
+        trailing = rng.choice([[], [], [], [3], [3], [2], [3, 3], [2, 2], [2, 3], [1], [1, 3], [1, 1], [3, 1]])
     shape = list(lead) + list(trailing)
     n = 1
     for s in shape:
         n *= s
+    flavour = None
     if dt == 'f':
-        data = [cm.dyadic(rng, -8, 8, bits) if rng.random() < 0.7 else rng.uniform(-10, 10) for _ in range(n)]
+        r = rng.random()
+        if r < 0.08:
+            flavour = 'special'
+            data = [rng.choice(SPECIAL_FLOATS) for _ in range(n)]
+        else:
+            data = [(cm.dyadic(rng, -8, 8, bits) if rng.random() < 0.7 else rng.uniform(-10, 10)) * 2.0 ** scale
+                    for _ in range(n)]
     elif dt == 'i':
-        data = [rng.randint(-5, 9) for _ in range(n)]
+        if rng.random() < 0.12:
+            flavour = 'big'
+            data = [rng.choice(BIG_INTS) if rng.random() < 0.7 else rng.randint(-5, 9) for _ in range(n)]
+        else:
+            data = [rng.randint(-5, 9) for _ in range(n)]
+    elif dt == 'b':
+        data = [rng.random() < 0.5 for _ in range(n)]
     else:
-        data = [rng.choice(WORDS) for _ in range(n)]
-    return {'dt': dt, 'shape': shape, 'data': data}
+        r = rng.random()
+        if r < 0.3:
+            flavour = 'wild'
+            pool = WORDS + WORDS_ANY + (WORDS_JSON if via != 'xml' else [])
+            data = [rng.choice(pool) for _ in range(n)]
+        else:
+            data = [rng.choice(WORDS) for _ in range(n)]
+    a = {'dt': dt, 'shape': shape, 'data': data, 'form': rng.choice(FORMS)}
+    if flavour:
+        a['flavour'] = flavour
+    if a['form'] == 'narrow':
+        # float32 / int32 input: only values both types hold exactly
+        if dt == 'f' and flavour is None and scale == 0:
+            a['data'] = [cm.dyadic(rng, -8, 8, bits) for _ in range(n)]
+        elif dt != 'i' or flavour is not None:
+            a['form'] = 'c'
+    return a
 
 
 def _pick_unit(rng, arr, allow_scaled=True):
-    if arr['dt'] == 's':
-        return None
+    if arr['dt'] in 'sb' or arr.get('flavour') == 'special':
+        return None         # strings / booleans carry no unit; special floats must come back bit for bit
     r = rng.random()
-    if allow_scaled and arr['shape'] and arr['shape'][-1] == 3 and len(arr['shape']) >= 2 and r < 0.3:
+    if allow_scaled and arr['shape'] and arr['shape'][-1] == 3 and len(arr['shape']) >= 2 and r < 0.3 \
+            and arr.get('flavour') != 'big':
         return 'scaled'
     if r < 0.45:
         return None
@@ -174,15 +219,25 @@ def _pick_unit(rng, arr, allow_scaled=True):
     return gen_unit_expr(rng)
 
 
-def _gen_box(rng):
+SCALES = [0] * 12 + [10, -10, 40, -40, 100, -100, 300, -300]     # exponents of two: lengths, positions, constants
+
+
+def _gen_box(rng, scale=0):
+    """cell + origin.  Lower-triangular with every sign pattern of the diagonal, axis-permuted, all-nonzero of
+    either handedness, rotated (entries no longer dyadic; a quarter turn leaves 1e-17-sized entries behind), with
+    negligible (1e-17, 1e-12 relative: the vects setter zeroes them) or merely small (1e-7 relative: kept) entries;
+    all entries times 2**scale."""
     lx, ly, lz = (rng.randint(16, 64) / 8 for _ in range(3))
     xy, xz, yz = (rng.choice([0.0, 0.0, cm.dyadic(rng, -2, 2, 3)]) for _ in range(3))
+    if rng.random() < 0.25:
+        lx, ly, lz = (x * rng.choice([1.0, -1.0]) for x in (lx, ly, lz))
     vects = [[lx, 0.0, 0.0], [xy, ly, 0.0], [xz, yz, lz]]
-    if rng.random() < 0.3:      # general orientation: a signed permutation of the axes
+    r = rng.random()
+    if r < 0.3:      # general orientation: a signed permutation of the axes
         perm = rng.choice([[1, 2, 0], [2, 0, 1], [0, 2, 1]])
         sg = [rng.choice([1.0, -1.0]) for _ in range(3)]
         vects = [[sg[j] * v[perm[j]] for j in range(3)] for v in vects]
-    elif rng.random() < 0.2:    # no zero entry, either handedness: |entries| <= 8, 8 <= |det|, nothing negligible
+    elif r < 0.45:    # no zero entry, either handedness: |entries| <= 8, 8 <= |det|, nothing negligible
         for _ in range(200):
             m = [[cm.dyadic(rng, -8, 8, 2) for _ in range(3)] for _ in range(3)]
             (a, b, c), (d, e, f), (g, h, i) = m
@@ -190,8 +245,33 @@ def _gen_box(rng):
             if abs(det) >= 8 and all(abs(x) >= 0.25 for row in m for x in row):
                 vects = m
                 break
+    elif r < 0.6:     # rotated about a coordinate axis (float arithmetic as a user would do it)
+        import math
+        ang = rng.choice([math.pi / 2, math.pi / 2, math.pi, math.pi / 6, math.pi / 4, rng.uniform(0, 6.28)])
+        c, sn = math.cos(ang), math.sin(ang)
+        ax = rng.randrange(3)
+        i, j = [(1, 2), (2, 0), (0, 1)][ax]
+        out = []
+        for v in vects:
+            w = list(v)
+            w[i], w[j] = c * v[i] - sn * v[j], sn * v[i] + c * v[j]
+            out.append(w)
+        vects = out
+    elif r < 0.7:     # negligible / small entries in the empty slots
+        big = max(abs(x) for row in vects for x in row)
+        for row in vects:
+            for j in range(3):
+                if row[j] == 0.0 and rng.random() < 0.5:
+                    row[j] = rng.choice([1e-17, -3e-17, 2e-12, 1e-7, -1e-7]) * big
     origin = [0.0, 0.0, 0.0] if rng.random() < 0.25 else [cm.dyadic(rng, -4, 4, 2) for _ in range(3)]
-    return {'vects': vects, 'origin': origin}
+    k = 2.0 ** scale
+    return {'vects': [[x * k for x in row] for row in vects], 'origin': [x * k for x in origin]}
+
+
+def clean_cell(vects):
+    """what a Box holds after its vects setter (documented clean-up): entries with |x| <= 1e-9 * max|entry| are 0."""
+    big = max(abs(Fraction(x)) for row in vects for x in row)
+    return [[Fraction(0) if abs(Fraction(x)) <= Fraction(1, 10 ** 9) * big else Fraction(x) for x in row] for row in vects]
 
 
 def _gen_cfgs(rng):
@@ -204,16 +284,22 @@ def _gen_cfgs(rng):
 def gen_uc(rng):
     rank = rng.choice([0, 0, 1, 1, 2, 2, 3, 4])
     shape = [rng.choice([1, 2, 3, 4]) for _ in range(rank)]
-    arr = _gen_arr(rng, shape, trailing=[], dt=rng.choice('ffffis'))
+    via = rng.choice(['tree', 'json', 'xml'])
+    scale = rng.choice(SCALES)
+    arr = _gen_arr(rng, shape, trailing=[], dt=rng.choice('fffffiisb'), via=via, scale=scale)
     unit = _pick_unit(rng, arr, allow_scaled=False)
-    if arr['dt'] != 's' and rng.random() < 0.08:
+    if unit is not None and (abs(scale) > 100 or (arr['form'] == 'narrow' and arr['dt'] == 'f')):
+        # keep value / factor inside the double range; float32 input divided by a unit factor is float32 arithmetic
+        # (numpy keeps the array's type against a python float: 1e-7 relative, overflow beyond 3e38) - not modelled
+        unit = None
+    if arr['dt'] in 'fi' and arr.get('flavour') != 'special' and rng.random() < 0.08:
         unit = 'scaled'
     w1, w2 = _gen_cfgs(rng)
-    case = {'kind': 'uc', 'via': rng.choice(['tree', 'json', 'xml']), 'w1': w1, 'w2': w2, 'unit': unit, 'arr': arr,
-            'form': rng.choice(['ndarray', 'ndarray', 'python', 'fview'])}
-    if arr['dt'] == 'f' and rng.random() < 0.25:
+    case = {'kind': 'uc', 'via': via, 'w1': w1, 'w2': w2, 'unit': unit, 'arr': arr}
+    if arr['dt'] == 'f' and arr.get('flavour') is None and arr['form'] != 'narrow' and rng.random() < 0.25:
         # uc.model(value, unit, error=...): an uncertainty of the same shape, stored next to the value
-        case['err'] = [cm.dyadic(rng, 0, 2, 4) for _ in arr['data']]
+        case['err'] = [cm.dyadic(rng, 0, 2, 4) * 2.0 ** scale for _ in arr['data']]
+        case['err_form'] = rng.choice(FORMS[:-1])
     return case
 
 
@@ -227,47 +313,118 @@ def gen_box(rng):
             'unit': _len_unit(rng), 'box': _gen_box(rng)}
 
 
-def _gen_props(rng, natoms, ntypes):
+NAMES = ['charge', 'tag', 'n', 'stress', 'vel', 'disp', 'label', 'T', 'spin']
+# short names that are substrings of reserved ones, names equal to keys of the written tree, names with a blank /
+# non-ASCII letter ('natoms', 'model', 'prop', 'view' are attributes / constructor arguments of Atoms: not property names)
+NAMES_ODD = ['p', 'os', 'po', 's', 'a', 'typ', 'x y', 'é', 'shape', 'unit', 'value', 'box', 'atoms', 'name', 'data',
+             'property', 'scaled', 'avect', 'origin', 'atom-type-symbol', 'natom', 'error', 'atomic-system']
+
+
+def _gen_props(rng, natoms, ntypes, via='tree', scale=0):
     atype = [rng.randint(1, ntypes) for _ in range(natoms)]
     atype[rng.randrange(natoms)] = ntypes
-    pos = _gen_arr(rng, [natoms], dt='f', trailing=[3])
-    props = [{'name': 'atype', 'unit': None, 'dt': 'i', 'shape': [natoms], 'data': atype},
-             dict(pos, name='pos', unit=rng.choice([None, 'scaled', 'scaled', 'angstrom', 'nm', 'm',
-                                                    gen_dim_unit(rng, 'length'), gen_dim_unit(rng, 'length')]))]
-    names = ['charge', 'tag', 'n', 'stress', 'vel', 'disp', 'label', 'T', 'spin']
+    pos = _gen_arr(rng, [natoms], dt='f' if rng.random() < 0.9 else 'i', trailing=[3], via=via, scale=scale)
+    if pos.get('flavour'):
+        pos = _gen_arr(rng, [natoms], dt='f', trailing=[3], via=via, scale=scale)
+        pos['data'] = [cm.dyadic(rng, -8, 8, 3) * 2.0 ** scale for _ in pos['data']]
+        pos.pop('flavour', None)
+        pos['form'] = 'c'
+    lu = [None, 'scaled', 'scaled', 'angstrom', 'nm', 'm', gen_dim_unit(rng, 'length'), gen_dim_unit(rng, 'length')]
+    if pos['form'] == 'narrow' and pos['dt'] == 'f':
+        lu = lu[1:3]                        # (float32 positions: box-scaled only, see gen_uc)
+    props = [{'name': 'atype', 'unit': None, 'dt': 'i', 'shape': [natoms], 'data': atype,
+              'form': rng.choice(['c', 'c', 'list', 'narrow', 'readonly'])},
+             dict(pos, name='pos', unit=rng.choice(lu if abs(scale) <= 100 else lu[:3]))]
+    names = list(NAMES)
     rng.shuffle(names)
-    for name in names[:rng.randint(0, 4)]:
-        arr = _gen_arr(rng, [natoms])
-        props.append(dict(arr, name=name, unit=_pick_unit(rng, arr)))
+    names = names[:rng.randint(0, 4)]
+    if rng.random() < 0.3:
+        names.insert(rng.randint(0, len(names)), rng.choice(NAMES_ODD))
+    for name in names:
+        arr = _gen_arr(rng, [natoms], via=via, scale=scale)
+        unit = _pick_unit(rng, arr)
+        if unit not in (None, 'scaled') and (abs(scale) > 100 or (arr['form'] == 'narrow' and arr['dt'] == 'f')):
+            unit = None
+        props.append(dict(arr, name=name, unit=unit))
     return props
+
+
+def _gen_again(rng, props, box=True):
+    """a second dump of the SAME object: a few elements of its property arrays are overwritten in place (through
+    the array the object hands out), optionally its box is replaced through the setters, then it is written under
+    the configuration it was read under and read under the one it was written under."""
+    edits = []
+    for p in props:
+        if p['name'] == 'atype' or p['dt'] in 'sb' or p.get('form') in ('readonly', 'list', 'narrow') or p.get('flavour'):
+            continue
+        if rng.random() < 0.6:
+            n = 1
+            for x in p['shape']:
+                n *= x
+            for _ in range(rng.randint(1, 2)):
+                v = float(rng.randint(-40, 40)) / 8 if p['dt'] == 'f' else rng.randint(-9, 9)
+                edits.append({'name': p['name'], 'at': rng.randrange(n), 'value': v})
+    again = {'edits': edits}
+    if box and rng.random() < 0.4:
+        again['setv'] = _gen_box(rng)['vects']
+    return again
+
+
+def apply_again(case):
+    """the case that describes the object after the in-place edits of case['again'], written under w2 / read under w1."""
+    c2 = {k: v for k, v in case.items() if k not in ('again', 'props', 'box')}
+    c2['w1'], c2['w2'] = case['w2'], case['w1']
+    props = [dict(p, data=list(p['data'])) for p in case['props']]
+    k = 2.0 ** case.get('scale', 0)
+    for e in case['again']['edits']:
+        for p in props:
+            if p['name'] == e['name']:
+                p['data'][e['at']] = e['value'] * k if p['dt'] == 'f' else e['value']
+    c2['props'] = props
+    if 'box' in case:
+        c2['box'] = dict(case['box'])
+        if 'setv' in case['again']:
+            c2['box']['vects'] = [[x * k for x in row] for row in case['again']['setv']]
+    c2['second_of'] = {k: v for k, v in case.items()}
+    c2['record'] = None
+    c2['override'] = None
+    c2['prefill'] = False
+    return c2
 
 
 def gen_atoms(rng):
     natoms = rng.randint(1, 6)
     ntypes = rng.randint(1, 3)
     w1, w2 = _gen_cfgs(rng)
-    props = _gen_props(rng, natoms, ntypes)
+    via = rng.choice(['tree', 'json', 'xml'])
+    props = _gen_props(rng, natoms, ntypes, via)
     for p in props:
-        if p['unit'] == 'scaled' and rng.random() < 0.5:
+        if p['unit'] == 'scaled' and rng.random() < 0.5 and not (p['form'] == 'narrow' and p['dt'] == 'f'):
             p['unit'] = 'nm'        # Atoms.model alone treats 'scaled' as factor 1
-    case = {'kind': 'atoms', 'via': rng.choice(['tree', 'json', 'xml']), 'w1': w1, 'w2': w2,
-            'natoms': natoms, 'props': props}
+    case = {'kind': 'atoms', 'via': via, 'w1': w1, 'w2': w2, 'natoms': natoms, 'props': props}
     if rng.random() < 0.3:
         # Atoms.model(prop_unit=...) with a selection of the properties in another order (atype / pos may be left
         # out: the reader then fills in the constructor's defaults)
         sel = [p for p in props if rng.random() < 0.7]
         rng.shuffle(sel)
         case['sel'] = [{'name': p['name'], 'unit': p['unit']} for p in sel]
+    elif rng.random() < 0.4:
+        case['again'] = _gen_again(rng, props, box=False)
     return case
+
+
+SYMBOLS = ['Al', 'Cu', 'Fe', 'Ni-1', None, None, 'α-Fe', 'Al 1']
 
 
 def gen_sys(rng):
     natoms = rng.randint(1, 7)
     ntypes = rng.randint(1, 3)
     w1, w2 = _gen_cfgs(rng)
-    props = _gen_props(rng, natoms, ntypes)
+    via = rng.choice(['tree', 'json', 'xml'])
+    scale = rng.choice(SCALES)
+    props = _gen_props(rng, natoms, ntypes, via, scale)
     nsym = rng.choice([0, ntypes, ntypes, ntypes, ntypes + 1, max(0, ntypes - 1)])
-    symbols = [rng.choice(['Al', 'Cu', 'Fe', 'Ni-1', None]) for _ in range(nsym)]
+    symbols = [rng.choice(SYMBOLS) for _ in range(nsym)]
     natS = max(nsym, ntypes)
     mode = rng.choice(['none', 'all', 'some', 'short'])
     if mode == 'none':
@@ -278,22 +435,48 @@ def gen_sys(rng):
         masses = [rng.choice([None, rng.uniform(1, 200)]) for _ in range(natS)]
     else:
         masses = [rng.uniform(1, 200) for _ in range(rng.randint(0, natS))]
+    # masses handed over as numpy scalars / python ints (the object stores floats)
+    mass_form = rng.choice([None, None, None, 'f32', 'i64', 'int'])
+    if mass_form == 'f32':
+        masses = [None if m is None else rng.randint(8, 800) / 8 for m in masses]
+    elif mass_form in ('i64', 'int'):
+        masses = [None if m is None else float(rng.randint(1, 240)) for m in masses]
     sel = None
     if rng.random() < 0.25:
         # System.model / dump with a selection of the properties in another order (atype / pos possibly left out)
         chosen = [p for p in props if rng.random() < 0.7]
         rng.shuffle(chosen)
         sel = [{'name': p['name'], 'unit': p['unit']} for p in chosen]
-    return {'kind': 'sys', 'via': rng.choice(['tree', 'json', 'xml']), 'w1': w1, 'w2': w2, 'sel': sel,
-            'box': _gen_box(rng), 'box_unit': _len_unit(rng),
-            'pbc': [rng.random() < 0.6 for _ in range(3)], 'symbols': symbols, 'masses': masses,
+    io = rng.choice(['str', 'str', 'str', 'path', 'path', 'fileobj', 'stringio', 'tmpfile'])
+    if io == 'tmpfile' and via == 'xml':
+        io = 'stringio'             # xmltodict refuses tempfile's wrapper object (third party): JSON only
+    case = {'kind': 'sys', 'via': via, 'w1': w1, 'w2': w2, 'sel': sel, 'scale': scale,
+            'box': _gen_box(rng, scale), 'box_unit': _len_unit(rng) if abs(scale) <= 100 else None,
+            'pbc': [rng.random() < 0.6 for _ in range(3)], 'symbols': symbols, 'masses': masses, 'mass_form': mass_form,
             'natoms': natoms, 'props': props,
             'call': rng.choice(['prop_unit', 'prop_unit', 'lists', 'default']),
-            'io': rng.choice(['str', 'str', 'path', 'fileobj']),
-            'fmtcase': rng.choice([None, None, None, 'upper', 'title']), 'indent': rng.choice([None, None, None, 1, 4]),
+            'io': io,
+            # the target file exists already and is longer than what is written now
+            'prefill': io == 'path' and rng.random() < 0.5,
+            'fmtcase': rng.choice([None, None, None, 'upper', 'title']), 'indent': rng.choice([None, None, None, 0, 1, 4]),
             # the system as one of several entries of a larger record: load(..., key=, index=)
             'record': rng.choice([None, None, {'key': 'atomic-system', 'index': 1}, {'key': 'final-system', 'index': 0},
-                                  {'key': 'relaxed-system', 'index': 2}])}
+                                  {'key': 'relaxed-system', 'index': 2}]),
+            'override': None}
+    if rng.random() < 0.2:
+        # documented reader options: symbols= of load / System(model=), pbc= and masses= of System(model=)
+        nt = max(len(symbols), ntypes)
+        what = rng.choice(['symbols', 'symbols', 'pbc', 'masses'])
+        if what == 'symbols':
+            val = [rng.choice(['Cu', 'Au', 'Pt', 'W']) for _ in range(nt)]
+            case['override'] = {'symbols': val[0] if nt == 1 and rng.random() < 0.5 else val}
+        elif what == 'pbc':
+            case['override'] = {'pbc': [rng.random() < 0.5 for _ in range(3)]}
+        else:
+            case['override'] = {'masses': [rng.randint(8, 800) / 8 for _ in range(nt)]}
+    if sel is None and rng.random() < 0.35:
+        case['again'] = _gen_again(rng, props)
+    return case
 
 
 # 'monoclinic' is a crystal system of normalized_as since repo fix 877d779 (13 constants kept, the rest zeroed)
@@ -366,7 +549,8 @@ def gen_ec(rng):
     rhombohedral, monoclinic, triclinic included), stored as every crystal_system."""
     form = rng.choice(list(EC_INFORM))
     exact = rng.random() < 0.7
-    scale = rng.choice([1.0, 12.5, 0.25])
+    # magnitudes: the setter's clean-up and symmetry test must be relative (small-number unit systems)
+    scale = rng.choice([1.0, 12.5, 0.25]) * 2.0 ** rng.choice([0, 0, 0, 0, 20, -20, 40, -40, 100, -100])
 
     def num(lo, hi, signed=False):
         x = rng.randint(int(lo * 4), int(hi * 4)) / 4 if exact else rng.uniform(lo, hi)
@@ -396,40 +580,72 @@ def gen_ec(rng):
 
 def gen_obj(rng):
     """one System object holding one Box object, driven through a sequence of operations: conversions that make
-    the box keep its reciprocal vectors, setter calls, Box.model(model=...) reads into the existing object, and
-    System dumps with box-scaled positions."""
+    the box keep its reciprocal vectors, setter calls, Box.model(model=...) reads into the existing object,
+    in-place edits of the positions, Box dumps and System dumps with box-scaled positions.  A dump marked `swap`
+    is written under the second configuration and read under the first (state kept per object or per module must
+    not survive a change of working units)."""
     natoms = rng.randint(1, 4)
     pos = [cm.dyadic(rng, -8, 8, 3) for _ in range(3 * natoms)]
     ops = []
     for _ in range(rng.randint(3, 8)):
         o = rng.choice(['warm', 'warm', 'c2r', 'c2r', 'c2r', 'r2c', 'setv', 'seto', 'bread', 'bread', 'bread',
-                        'sysdump', 'sysdump', 'sysdump'])
+                        'sysdump', 'sysdump', 'sysdump', 'sysdump', 'setp', 'setp', 'bdump', 'bdump'])
+        swap = rng.random() < 0.4
         if o in ('c2r', 'r2c'):
             ops.append({'op': o, 'p': [cm.dyadic(rng, -8, 8, 3) for _ in range(3)]})
         elif o == 'setv':
             ops.append({'op': o, 'm': _gen_box(rng)['vects']})
         elif o == 'seto':
             ops.append({'op': o, 'o': [cm.dyadic(rng, -4, 4, 2) for _ in range(3)]})
+        elif o == 'setp':
+            ops.append({'op': o, 'at': rng.randrange(3 * natoms), 'v': cm.dyadic(rng, -8, 8, 3)})
         elif o == 'bread':
-            ops.append({'op': o, 'via': rng.choice(['tree', 'json', 'xml']), 'unit': _len_unit(rng), 'box': _gen_box(rng)})
-        elif o == 'sysdump':
-            ops.append({'op': o, 'via': rng.choice(['tree', 'json', 'xml']), 'unit': _len_unit(rng)})
+            ops.append({'op': o, 'via': rng.choice(['tree', 'json', 'xml']), 'unit': _len_unit(rng), 'box': _gen_box(rng),
+                        'swap': swap})
+        elif o in ('sysdump', 'bdump'):
+            ops.append({'op': o, 'via': rng.choice(['tree', 'json', 'xml']), 'unit': _len_unit(rng), 'swap': swap})
         else:
             ops.append({'op': o})
     w1, w2 = _gen_cfgs(rng)
     return {'kind': 'obj', 'via': 'obj', 'w1': w1, 'w2': w2, 'box': _gen_box(rng), 'natoms': natoms, 'pos': pos, 'ops': ops}
 
 
+def gen_refusal(rng):
+    """calls the documentation refuses (the refusal must happen at this call, with this exception class)."""
+    natoms = rng.choice([2, 4, 5])      # (not 3: a (3,) array is a single position to the box conversions)
+    which = rng.choice(['lists-length', 'lists-length', 'prop_unit+prop_name', 'prop_unit+unit', 'scaled-not-3',
+                        'string-with-unit', 'unknown-property', 'model+atoms', 'model+box', 'atoms-model+natoms',
+                        'load-key', 'load-index', 'value-unit-shape', 'uc-string-with-unit', 'atoms-lists-length'])
+    return {'kind': 'refuse', 'via': rng.choice(['json', 'xml']), 'w1': 'default', 'w2': 'default', 'which': which,
+            'natoms': natoms, 'short': rng.randint(1, 2), 'index': rng.randint(1, 4)}
+
+
 # ----------------------------------------------------------------------------------------
 # running a case on the real code
 # ----------------------------------------------------------------------------------------
-def _nparr(a):
+_NPDT = {'f': float, 'i': int, 's': str, 'b': bool}
+
+
+def _nparr(a, form=None):
+    """the array of a spec, handed over in the spec's `form`: C-contiguous, Fortran-ordered, a strided view of a
+    larger buffer, read-only, a (nested) python list, or float32 / int32."""
     import numpy as np
-    if a['dt'] == 'f':
-        return np.array(a['data'], dtype=float).reshape(a['shape'])
-    if a['dt'] == 'i':
-        return np.array(a['data'], dtype=int).reshape(a['shape'])
-    return np.array(a['data'], dtype=str).reshape(a['shape'])
+    arr = np.array(a['data'], dtype=_NPDT[a['dt']]).reshape(a['shape'])
+    form = form or a.get('form', 'c')
+    if form == 'fortran' and arr.ndim >= 2:
+        arr = np.asfortranarray(arr)
+    elif form == 'strided' and arr.ndim >= 1 and arr.size:
+        big = np.zeros(arr.shape[:-1] + (2 * arr.shape[-1],), dtype=arr.dtype)
+        big[..., ::2] = arr
+        big[..., 1::2] = arr[..., ::-1]
+        arr = big[..., ::2]
+    elif form == 'readonly':
+        arr.flags.writeable = False
+    elif form == 'list':
+        arr = arr.tolist()
+    elif form == 'narrow':
+        arr = arr.astype({'f': np.float32, 'i': np.int32}.get(a['dt'], arr.dtype))
+    return arr
 
 
 def _mk_box(b):
@@ -445,11 +661,19 @@ def _mk_atoms(case):
     return am.Atoms(**kw)
 
 
+def _mass_in(m, form):
+    import numpy as np
+    if m is None or form is None:
+        return m
+    return {'f32': np.float32, 'i64': lambda x: np.int64(int(x)), 'int': int}[form](m)
+
+
 def _mk_sys(case):
     import atomman as am
+    masses = [_mass_in(m, case.get('mass_form')) for m in case['masses']]
     return am.System(atoms=_mk_atoms(case), box=_mk_box(case['box']), pbc=case['pbc'],
                      symbols=case['symbols'] if case['symbols'] else None,
-                     masses=case['masses'] if case['masses'] else None)
+                     masses=masses if masses else None)
 
 
 def _mk_ec(case):
@@ -466,6 +690,8 @@ def eff_unit(name, unit):
 
 def _units_of(case):
     k = case['kind']
+    if k == 'refuse':
+        return []
     if k == 'obj':
         return [op['unit'] for op in case['ops'] if 'unit' in op]
     if k in ('uc', 'box', 'ec'):
@@ -703,11 +929,75 @@ class RealRun:
         self.fW = {}
         self.fR = {}
         self.extra = {}
+        self.side = []          # (key, message): side effects / aliasing observed around the calls
+        self.again = None       # (case2, RealRun) of the second dump of the same object
 
 
 def _box_out(box):
     return {'box': {'avect': box.avect.tolist(), 'bvect': box.bvect.tolist(), 'cvect': box.cvect.tolist(),
                     'origin': box.origin.tolist()}}
+
+
+def _bits(a):
+    """bitwise snapshot of an array-like (dtype, shape, bytes / items)."""
+    import numpy as np
+    a = np.asarray(a)
+    return (str(a.dtype), a.shape, a.tobytes() if a.dtype.kind != 'O' else tuple(a.flatten().tolist()))
+
+
+def _snap_box(b):
+    return (_bits(b.vects), _bits(b.origin))
+
+
+def _snap_atoms(a):
+    return (a.natoms, tuple((k, _bits(a.view[k])) for k in a.prop()))
+
+
+def _snap_sys(s):
+    return (_snap_box(s.box), _snap_atoms(s.atoms), _bits(s.pbc), tuple(s.symbols), tuple(s.masses))
+
+
+def _tree_text(t):
+    """the content of a DataModelDict tree as text (for before / after comparisons)."""
+    return json.dumps(t, default=str)
+
+
+def _scribble_tree(t):
+    """overwrite everything reachable in a returned tree (lists in place)."""
+    if isinstance(t, dict):
+        for k in list(t.keys()):
+            if isinstance(t[k], (dict, list)):
+                _scribble_tree(t[k])
+            else:
+                t[k] = 'scribbled'
+    elif isinstance(t, list):
+        for i in range(len(t)):
+            if isinstance(t[i], (dict, list)):
+                _scribble_tree(t[i])
+            else:
+                t[i] = 977
+        t.append('scribbled')
+
+
+def _scribble_sys(s):
+    """use a System that was read as a caller would: move atoms, change the cell (in place where possible)."""
+    for k in s.atoms.prop():
+        a = s.atoms.view[k]
+        if a.flags.writeable and a.dtype.kind in 'fiu' and k != 'atype':
+            a[...] = 99
+    try:
+        s.box.vects = [[10.5, 0, 0], [0, 11.5, 0], [0, 0, 12.5]]
+        s.box.origin = [7, 7, 7]
+        s.pbc[...] = [False, True, False]
+    except Exception:  # noqa
+        pass
+
+
+def _scribble_atoms(a):
+    for k in a.prop():
+        v = a.view[k]
+        if v.flags.writeable and v.dtype.kind in 'fiu' and k != 'atype':
+            v[...] = 99
 
 
 def _run_obj(case, r) -> RealRun:
@@ -726,11 +1016,12 @@ def _run_obj(case, r) -> RealRun:
         return r
     for op in case['ops']:
         o, u = op['op'], op.get('unit')
+        wa, wb = (case['w2'], case['w1']) if op.get('swap') else (case['w1'], case['w2'])
         fac = (1.0, 1.0)
         if u is not None:
-            set_cfg(case['w1'])
+            set_cfg(wa)
             fw = own_factor(u)
-            set_cfg(case['w2'])
+            set_cfg(wb)
             fac = (fw, own_factor(u))
         facs.append(fac)
         box = system.box
@@ -747,17 +1038,25 @@ def _run_obj(case, r) -> RealRun:
             elif o == 'seto':
                 box.origin = op['o']
                 out = _box_out(box)
+            elif o == 'setp':
+                system.atoms.pos[op['at'] // 3, op['at'] % 3] = op['v']        # in place, through the live array
+                out = {'pos': system.atoms.pos.flatten().tolist()}
             elif o == 'bread':
-                set_cfg(case['w1'])
+                set_cfg(wa)
                 text = _to_text(_mk_box(op['box']).model(length_unit=u), op['via'], False)
-                set_cfg(case['w2'])
+                set_cfg(wb)
                 box.model(model=text)           # read into the existing object
                 out = _box_out(box)
+            elif o == 'bdump':
+                set_cfg(wa)
+                text = _to_text(box.model(length_unit=u), op['via'], False)
+                set_cfg(wb)
+                out = _box_out(am.Box(model=text))
             else:
-                set_cfg(case['w1'])
+                set_cfg(wa)
                 kw = dict(box_unit=u, prop_unit={'atype': None, 'pos': 'scaled'})
                 text = system.model(**kw) if op['via'] == 'tree' else system.dump('system_model', format=op['via'], **kw)
-                set_cfg(case['w2'])
+                set_cfg(wb)
                 out = {'read': am.System(model=text) if op['via'] == 'tree' else am.load('system_model', text)}
             outs.append(out)
         except Exception as e:  # noqa
@@ -766,10 +1065,309 @@ def _run_obj(case, r) -> RealRun:
     return r
 
 
+def _edit_in_place(atoms, case):
+    """the in-place edits of case['again'] through the arrays the object hands out."""
+    import numpy as np
+    k = 2.0 ** case.get('scale', 0)
+    dts = {p['name']: p['dt'] for p in case['props']}
+    for e in case['again']['edits']:
+        a = atoms.view[e['name']]
+        a[np.unravel_index(e['at'], a.shape)] = e['value'] * k if dts[e['name']] == 'f' else e['value']
+
+
+def _prop_kw(case, r):
+    """keyword arguments that select the properties / units of a System or Atoms model call."""
+    chosen = case['sel'] if case.get('sel') is not None else case['props']
+    names = [p['name'] for p in chosen]
+    units = [p['unit'] for p in chosen]
+    call = case.get('call', 'prop_unit')
+    if case.get('sel') is not None and call == 'default':
+        call = 'prop_unit'
+    if call == 'default' and all(u is None for u in units):
+        return {}
+    if call == 'lists':
+        return dict(prop_name=names, unit=units)
+    return dict(prop_unit=dict(zip(names, units)))
+
+
+def _kw_copy(kw):
+    return {k: (dict(v) if isinstance(v, dict) else list(v)) for k, v in kw.items()}
+
+
+def _sys_roundtrip(case, s, r, path=None):
+    """one dump of the System object `s` under w1 and one read under w2, with the checks around the calls: the
+    object and the arguments are not modified by writing, two writes agree and share nothing, reading does not
+    modify the tree, two reads give independent objects."""
+    import atomman as am
+    import os
+    import io as _io
+    import tempfile
+    from DataModelDict import DataModelDict as DM
+    via = case['via']
+    set_cfg(case['w1'])
+    r.fW = _factors(case)
+    try:
+        r.extra['symbols'] = list(s.symbols)
+        r.extra['masses'] = list(s.masses)
+        r.extra['cell'] = s.box.vects.flatten().tolist() + s.box.origin.tolist()
+        before = _snap_sys(s)
+        fmtkw = _prop_kw(case, r)
+        kw0 = _kw_copy(fmtkw)
+        if via == 'tree':
+            first = s.model(box_unit=case['box_unit'], **fmtkw)
+            kept = _tree_text(first)
+            _scribble_tree(first)                   # a returned tree belongs to the caller
+            model = s.model(box_unit=case['box_unit'], **fmtkw)
+            if _tree_text(model) != kept:
+                r.side.append(('write-twice', 'System.model() called twice (the first tree overwritten by the caller in '
+                               'between) returns different trees'))
+        else:
+            model = s.dump('system_model', box_unit=case['box_unit'], **fmtkw)
+        if fmtkw != kw0:
+            r.side.append(('arguments-modified', f'System.model / dump changed the arguments it was given: {kw0} -> {fmtkw}'))
+            fmtkw = _kw_copy(kw0)
+        if _snap_sys(s) != before:
+            r.side.append(('write-modifies-object', 'System.model / dump changed the System object (bitwise comparison of '
+                           'cell, origin, pbc, symbols, masses and every per-atom property before / after)'))
+    except Exception as e:  # noqa
+        r.write_error = f'{type(e).__name__}: {e}'
+        return
+    r.tree = model
+    # the format name in the spelling of the case ('json', 'JSON', 'Xml', ...) and an optional indentation
+    fmt = {'upper': via.upper(), 'title': via.title()}.get(case.get('fmtcase'), via)
+    if case.get('indent') is not None:
+        fmtkw = dict(fmtkw, indent=case['indent'])
+    io = case.get('io', 'str')
+    try:
+        text = None
+        if via == 'tree':
+            text = model
+        elif io in ('path', 'fileobj'):
+            # dump(f=...) : format taken from the file extension (path) or given (file object)
+            if path is None:
+                fd, path = tempfile.mkstemp(suffix='.' + (fmt if io == 'path' else via), prefix='c10_')
+                os.close(fd)
+                if case.get('prefill'):
+                    # the file exists and is longer than the new content
+                    with open(path, 'w', encoding='UTF-8') as fp:
+                        fp.write(am.System(atoms=am.Atoms(atype=[1] * 40, pos=[[0.5, 0.25, 0.125]] * 40),
+                                           symbols=['Zr']).dump('system_model', format=via, indent=2) + '\n' * 50)
+            r.extra['path'] = path
+            if io == 'path':
+                s.dump('system_model', f=path, box_unit=case['box_unit'], **fmtkw)   # format from the extension
+            else:
+                with open(path, 'w', encoding='UTF-8') as fp:
+                    s.dump('system_model', f=fp, format=fmt, box_unit=case['box_unit'], **fmtkw)
+            with open(path, encoding='UTF-8') as fp:
+                text = fp.read()
+        elif io == 'stringio':
+            fp = _io.StringIO()
+            s.dump('system_model', f=fp, format=fmt, box_unit=case['box_unit'], **fmtkw)
+            text = fp.getvalue()
+        elif io == 'tmpfile':
+            with tempfile.NamedTemporaryFile('w+', suffix='.' + via, encoding='UTF-8') as fp:
+                s.dump('system_model', f=fp, format=fmt, box_unit=case['box_unit'], **fmtkw)
+                fp.flush()
+                fp.seek(0)
+                text = fp.read()
+        else:
+            text = s.dump('system_model', format=fmt, box_unit=case['box_unit'], **fmtkw)
+            if s.dump('system_model', format=fmt, box_unit=case['box_unit'], **fmtkw) != text:
+                r.side.append(('write-twice', 'System.dump called twice returns different text'))
+        r.extra['text'] = text if isinstance(text, str) else None
+        if _snap_sys(s) != before:
+            r.side.append(('write-modifies-object', 'System.dump changed the System object (bitwise comparison before / after)'))
+    except Exception as e:  # noqa
+        r.text_error = f'{type(e).__name__}: {e}'
+        return
+    set_cfg(case['w2'])
+    r.fR = _factors(case)
+    ov = case.get('override') or {}
+    try:
+        if via != 'tree':
+            r.via_tree = _reparse(text, False)
+
+        def read_once():
+            if via == 'tree':
+                if 'symbols' in ov and case['natoms'] % 2 == 0:
+                    return am.load('system_model', text, **ov)       # load takes a tree too
+                return am.System(model=text, **ov)
+            if 'pbc' in ov or 'masses' in ov:
+                return am.System(model=text, **ov)
+            if io == 'path':
+                return am.load('system_model', r.extra['path'], **ov)
+            if io == 'fileobj':
+                with open(r.extra['path'], 'rb') as fp:      # DataModelDict wants file objects in bytes mode
+                    one = am.load('system_model', fp, **ov)
+                    fp.seek(0)                               # the same stream handed over a second time
+                    _scribble_sys(one)
+                    return am.load('system_model', fp, **ov)
+            rec = case.get('record')
+            if rec is None:
+                return am.load('system_model', text, **ov)
+            # the written system sits at position `index` among entries with the key `key`; the other
+            # entries are a different (default) system
+            decoy = am.System().model()['atomic-system']
+            mine = DM(text)['atomic-system']
+            entries = [decoy] * rec['index'] + [mine] + [decoy]
+            record = DM([('calculation', DM([('id', 'c10'), (rec['key'], entries)]))])
+            rtext = record.json() if via == 'json' else record.xml()
+            return am.load('system_model', rtext, key=rec['key'], index=rec['index'], **ov)
+
+        kept = _tree_text(text) if via == 'tree' else None
+        one = read_once()
+        _scribble_sys(one)                      # what was read belongs to the caller
+        if via == 'tree' and _tree_text(text) != kept:
+            r.side.append(('read-modifies-tree', 'System(model=tree) / load changed the tree it was given (or what it '
+                           'returned shares memory with it)'))
+            r.extra['tree_after_read'] = _tree_text(text)
+        r.read = read_once()                    # a second, independent read of the same content
+    except Exception as e:  # noqa
+        r.read_error = f'{type(e).__name__}: {e}'
+
+
+def _run_sys(case, r):
+    set_cfg(case['w1'])
+    try:
+        s = _mk_sys(case)
+    except Exception as e:  # noqa
+        r.write_error = f'{type(e).__name__}: {e}'
+        return r
+    _sys_roundtrip(case, s, r)
+    if case.get('again') is not None and not (r.write_error or r.text_error or r.read_error):
+        case2, r2 = apply_again(case), RealRun()
+        r.again = (case2, r2)
+        try:
+            _edit_in_place(s.atoms, case)
+            if 'setv' in case['again']:
+                s.box.vects = case2['box']['vects']
+        except Exception as e:  # noqa
+            r2.write_error = f'in-place edit raised {type(e).__name__}: {e}'
+            return r
+        _sys_roundtrip(case2, s, r2, path=r.extra.get('path'))      # a file that was written and loaded before
+    return r
+
+
+def _atoms_roundtrip(case, a, r):
+    import atomman as am
+    via = case['via']
+    set_cfg(case['w1'])
+    r.fW = _factors(case)
+    try:
+        before = _snap_atoms(a)
+        chosen = case['sel'] if case.get('sel') is not None else case['props']
+        pu = {p['name']: p['unit'] for p in chosen}
+        pu0 = dict(pu)
+        first = a.model(prop_unit=pu)
+        kept = _tree_text(first)
+        _scribble_tree(first)
+        model = a.model(prop_unit=dict(pu0))
+        if _tree_text(model) != kept:
+            r.side.append(('write-twice', 'Atoms.model() called twice (the first tree overwritten by the caller in between) '
+                           'returns different trees'))
+        if pu != pu0:
+            r.side.append(('arguments-modified', f'Atoms.model changed the prop_unit dictionary it was given: {pu0} -> {pu}'))
+        if _snap_atoms(a) != before:
+            r.side.append(('write-modifies-object', 'Atoms.model changed the Atoms object (bitwise comparison of every '
+                           'property before / after)'))
+    except Exception as e:  # noqa
+        r.write_error = f'{type(e).__name__}: {e}'
+        return
+    r.tree = model
+    try:
+        text = _to_text(model, via, False)
+        r.extra['text'] = text if isinstance(text, str) else None
+    except Exception as e:  # noqa
+        r.text_error = f'{type(e).__name__}: {e}'
+        return
+    set_cfg(case['w2'])
+    r.fR = _factors(case)
+    try:
+        if via != 'tree':
+            r.via_tree = _reparse(text, False)
+        kept = _tree_text(text) if via == 'tree' else None
+        one = am.Atoms(model=text)
+        _scribble_atoms(one)
+        if via == 'tree' and _tree_text(text) != kept:
+            r.side.append(('read-modifies-tree', 'Atoms(model=tree) changed the tree it was given (or what it returned '
+                           'shares memory with it)'))
+        r.read = am.Atoms(model=text)
+    except Exception as e:  # noqa
+        r.read_error = f'{type(e).__name__}: {e}'
+
+
+def _run_atoms(case, r):
+    set_cfg(case['w1'])
+    try:
+        a = _mk_atoms(case)
+    except Exception as e:  # noqa
+        r.write_error = f'{type(e).__name__}: {e}'
+        return r
+    _atoms_roundtrip(case, a, r)
+    if case.get('again') is not None and not (r.write_error or r.text_error or r.read_error):
+        case2, r2 = apply_again(case), RealRun()
+        r.again = (case2, r2)
+        try:
+            _edit_in_place(a, case)
+        except Exception as e:  # noqa
+            r2.write_error = f'in-place edit raised {type(e).__name__}: {e}'
+            return r
+        _atoms_roundtrip(case2, a, r2)
+    return r
+
+
+def _run_refusal(case, r):
+    """r.extra['raised'] = class name of what the refused call raised (None: it returned), r.extra['expect']."""
+    import atomman as am
+    import numpy as np
+    from DataModelDict import DataModelDict as DM
+    uc = _uc()
+    set_cfg('default')
+    n, w = case['natoms'], case['which']
+    s = am.System(atoms=am.Atoms(atype=[1] * n, pos=np.arange(3.0 * n).reshape(n, 3) / 4, charge=np.arange(float(n)),
+                                 lab=np.array(['w%d' % i for i in range(n)])), symbols=['Al'])
+    text = s.dump('system_model', format=case['via'])
+    names = ['atype', 'pos', 'charge']
+    calls = {
+        'lists-length': (ValueError, lambda: s.dump('system_model', format=case['via'], prop_name=names,
+                                                    unit=[None, 'nm', 'e'][:case['short']])),
+        'atoms-lists-length': (ValueError, lambda: s.atoms.model(prop_name=names, unit=[None, 'nm', 'e', 'e', None][:3 + case['short']])),
+        'prop_unit+prop_name': (ValueError, lambda: s.model(prop_unit={'atype': None}, prop_name=['atype'])),
+        'prop_unit+unit': (ValueError, lambda: s.atoms.model(prop_unit={'atype': None}, unit=[None])),
+        'scaled-not-3': (ValueError, lambda: s.model(prop_unit={'atype': None, 'charge': 'scaled'})),
+        'string-with-unit': (TypeError, lambda: s.model(prop_unit={'lab': 'nm'})),
+        'unknown-property': (KeyError, lambda: s.model(prop_unit={'atype': None, 'nope': None})),
+        'model+atoms': (ValueError, lambda: am.System(model=text, atoms=am.Atoms())),
+        'model+box': (ValueError, lambda: am.System(model=text, box=am.Box())),
+        'atoms-model+natoms': (ValueError, lambda: am.Atoms(model=text, natoms=n)),
+        'load-key': (KeyError, lambda: am.load('system_model', text, key='final-system')),
+        'load-index': (IndexError, lambda: am.load('system_model', text, index=case['index'])),
+        'value-unit-shape': (ValueError, lambda: uc.value_unit(DM([('value', list(range(n + 3))), ('shape', [n, 2])]))),
+        'uc-string-with-unit': (TypeError, lambda: uc.model(np.array(['a', 'b']), 'nm')),
+    }
+    exc, call = calls[w]
+    r.extra['expect'] = exc.__name__
+    try:
+        out = call()
+        r.extra['raised'] = None
+        r.extra['returned'] = str(out)[:300]
+    except Exception as e:  # noqa
+        r.extra['raised'] = type(e).__name__
+        r.extra['ok'] = isinstance(e, exc)
+        r.extra['message'] = str(e)[:200]
+    return r
+
+
 def _run_real(case, r) -> RealRun:
     """write under configuration w1, encode, read under w2.  Leaves w2 active: callers restore."""
     if case['kind'] == 'obj':
         return _run_obj(case, r)
+    if case['kind'] == 'sys':
+        return _run_sys(case, r)
+    if case['kind'] == 'atoms':
+        return _run_atoms(case, r)
+    if case['kind'] == 'refuse':
+        return _run_refusal(case, r)
     import atomman as am
     import numpy as np
     uc = _uc()
@@ -779,44 +1377,37 @@ def _run_real(case, r) -> RealRun:
     wrap = k == 'uc'
     try:
         if k == 'uc':
-            value = _nparr(case['arr'])
-            if case.get('form') == 'python':        # the documented array-like input: scalars / nested lists
-                value = value.tolist()
-            elif case.get('form') == 'fview' and value.ndim >= 2:   # same array, column-major memory
-                value = np.asfortranarray(value)
+            form = {'python': 'list', 'fview': 'fortran', 'ndarray': 'c'}.get(case.get('form'), None)   # (older replay files)
+            value = _nparr(case['arr'], form)
+            keep = _bits(value)
+            first = uc.model(value, case['unit'])
+            kept = _tree_text(first)
+            _scribble_tree(first)
             model = uc.model(value, case['unit'])
+            if _tree_text(model) != kept:
+                r.side.append(('write-twice', 'uc.model called twice on the same value (the first tree overwritten by the '
+                               'caller in between) returns different trees'))
             if case.get('err') is not None:
-                err = np.array(case['err'], dtype=float).reshape(case['arr']['shape'])
-                if case.get('form') == 'python':
-                    err = err.tolist()
-                elif case.get('form') == 'fview' and err.ndim >= 2:
-                    err = np.asfortranarray(err)
+                err = _nparr({'dt': 'f', 'shape': case['arr']['shape'], 'data': case['err']}, case.get('err_form', form))
+                keep_e = _bits(err)
                 r.extra['emodel'] = uc.model(value, case['unit'], error=err)
+                if _bits(err) != keep_e:
+                    r.side.append(('input-modified', 'uc.model(value, unit, error=e) changed the array e it was given'))
+            if _bits(value) != keep:
+                r.side.append(('input-modified', 'uc.model changed the value it was given'))
         elif k == 'box':
-            model = _mk_box(case['box']).model(length_unit=case['unit'])
-        elif k == 'atoms':
-            chosen = case['sel'] if case.get('sel') is not None else case['props']
-            model = _mk_atoms(case).model(prop_unit={p['name']: p['unit'] for p in chosen})
-        elif k == 'sys':
-            s = _mk_sys(case)
-            r.extra['symbols'] = list(s.symbols)
-            r.extra['masses'] = list(s.masses)
-            chosen = case['sel'] if case.get('sel') is not None else case['props']
-            names = [p['name'] for p in chosen]
-            units = [p['unit'] for p in chosen]
-            call = case.get('call', 'prop_unit')
-            if case.get('sel') is not None and call == 'default':
-                call = 'prop_unit'
-            if call == 'default' and all(u is None for u in units):
-                fmtkw = {}
-            elif call == 'lists':
-                fmtkw = dict(prop_name=names, unit=units)
-            else:
-                fmtkw = dict(prop_unit=dict(zip(names, units)))
-            if via == 'tree':
-                model = s.model(box_unit=case['box_unit'], **fmtkw)
-            else:
-                model = s.dump('system_model', box_unit=case['box_unit'], **fmtkw)
+            box = _mk_box(case['box'])
+            r.extra['cell'] = box.vects.flatten().tolist() + box.origin.tolist()
+            before = _snap_box(box)
+            first = box.model(length_unit=case['unit'])
+            kept = _tree_text(first)
+            _scribble_tree(first)
+            model = box.model(length_unit=case['unit'])
+            if _tree_text(model) != kept:
+                r.side.append(('write-twice', 'Box.model() called twice (the first tree overwritten by the caller in between) '
+                               'returns different trees'))
+            if _snap_box(box) != before:
+                r.side.append(('write-modifies-object', 'Box.model changed the Box object'))
         else:
             ec = _mk_ec(case)
             r.extra['C'] = ec.Cij.flatten().tolist()
@@ -825,33 +1416,14 @@ def _run_real(case, r) -> RealRun:
             except Exception:  # noqa
                 r.extra['muK'] = None
             model = ec.model(unit=case['unit'], crystal_system=case['cs'])
+            if ec.Cij.flatten().tolist() != r.extra['C']:
+                r.side.append(('write-modifies-object', 'ElasticConstants.model changed the object'))
     except Exception as e:  # noqa
         r.write_error = f'{type(e).__name__}: {e}'
         return r
     r.tree = model
-    # the format name in the spelling of the case ('json', 'JSON', 'Xml', ...) and an optional indentation
-    fmt = {'upper': via.upper(), 'title': via.title()}.get(case.get('fmtcase'), via)
-    if k == 'sys' and case.get('indent') is not None:
-        fmtkw = dict(fmtkw, indent=case['indent'])
     try:
-        if k == 'sys' and via != 'tree' and case.get('io', 'str') != 'str':
-            # dump(f=...) : format taken from the file extension (path) or given (file object)
-            import os
-            import tempfile
-            fd, path = tempfile.mkstemp(suffix='.' + (fmt if case['io'] == 'path' else via), prefix='c10_')
-            os.close(fd)
-            r.extra['path'] = path
-            if case['io'] == 'path':
-                s.dump('system_model', f=path, box_unit=case['box_unit'], **fmtkw)   # format from the extension
-            else:
-                with open(path, 'w', encoding='UTF-8') as fp:
-                    s.dump('system_model', f=fp, format=fmt, box_unit=case['box_unit'], **fmtkw)
-            with open(path, encoding='UTF-8') as fp:
-                text = fp.read()
-        elif k == 'sys' and via != 'tree':
-            text = s.dump('system_model', format=fmt, box_unit=case['box_unit'], **fmtkw)
-        else:
-            text = _to_text(model, via, wrap)
+        text = _to_text(model, via, wrap)
         r.extra['text'] = text if isinstance(text, str) else None
     except Exception as e:  # noqa
         r.text_error = f'{type(e).__name__}: {e}'
@@ -861,7 +1433,11 @@ def _run_real(case, r) -> RealRun:
     try:
         if via != 'tree':
             r.via_tree = _reparse(text, wrap)
+        kept = _tree_text(text) if via == 'tree' else None
         if k == 'uc':
+            one = uc.value_unit(text if via == 'tree' else r.via_tree)
+            if isinstance(one, np.ndarray) and one.ndim and one.flags.writeable and one.dtype.kind in 'fiu':
+                one[...] = 99
             r.read = uc.value_unit(text if via == 'tree' else r.via_tree)
             if 'emodel' in r.extra:
                 try:
@@ -871,31 +1447,17 @@ def _run_real(case, r) -> RealRun:
                 except Exception as e:  # noqa
                     r.extra['eread_error'] = f'{type(e).__name__}: {e}'
         elif k == 'box':
+            one = am.Box(model=text)
+            one.vects = [[10.5, 0, 0], [0, 11.5, 0], [0, 0, 12.5]]
             r.read = am.Box(model=text)
-        elif k == 'atoms':
-            r.read = am.Atoms(model=text)
-        elif k == 'sys':
-            if via == 'tree':
-                r.read = am.System(model=text)
-            elif case.get('io', 'str') == 'path':
-                r.read = am.load('system_model', r.extra['path'])
-            elif case.get('io', 'str') == 'fileobj':
-                with open(r.extra['path'], 'rb') as fp:      # DataModelDict wants file objects in bytes mode
-                    r.read = am.load('system_model', fp)
-            else:
-                rec = case.get('record')
-                if rec is None:
-                    r.read = am.load('system_model', text)
-                else:
-                    # the written system sits at position `index` among entries with the key `key`; the other
-                    # entries are a different (default) system
-                    from DataModelDict import DataModelDict as DM
-                    decoy = am.System().model()['atomic-system']
-                    mine = DM(text)['atomic-system']
-                    entries = [decoy] * rec['index'] + [mine] + [decoy]
-                    record = DM([('calculation', DM([('id', 'c10'), (rec['key'], entries)]))])
-                    rtext = record.json() if via == 'json' else record.xml()
-                    r.read = am.load('system_model', rtext, key=rec['key'], index=rec['index'])
+            # the same Box object written again under the reading configuration, read under the writing one
+            try:
+                t2 = _to_text(box.model(length_unit=case['unit']), via, False)
+                set_cfg(case['w1'])
+                r.extra['swapped'] = am.Box(model=t2)
+                set_cfg(case['w2'])
+            except Exception as e:  # noqa
+                r.extra['swapped_error'] = f'{type(e).__name__}: {e}'
         else:
             r.read = am.ElasticConstants(model=text)
             # the same model read into an *existing* object that was used before (compliances, 3x3x3x3 form)
@@ -914,6 +1476,9 @@ def _run_real(case, r) -> RealRun:
                 r.extra['read2'] = am.ElasticConstants(model=_to_text(m2, via, False)).Cij.flatten().tolist()
             except Exception as e:  # noqa
                 r.extra['read2_error'] = f'{type(e).__name__}: {e}'
+        if via == 'tree' and _tree_text(text) != kept:
+            r.side.append(('read-modifies-tree', 'reading changed the tree it was given (or what it returned shares '
+                           'memory with it)'))
     except Exception as e:  # noqa
         r.read_error = f'{type(e).__name__}: {e}'
     return r
@@ -932,10 +1497,46 @@ def run_real(case) -> RealRun:
                 pass
 
 
+def generations(case, r):
+    """(case, run) of the dump(s) of one object: the first, and the second after in-place edits if there was one."""
+    yield case, r
+    if r.again is not None:
+        yield r.again
+
+
 # ----------------------------------------------------------------------------------------
 # request line for the Lean driver
 # ----------------------------------------------------------------------------------------
 SPACE = '%'       # a blank inside a unit expression, on the request line (decoded by the driver)
+_PLAIN = re.compile(r'^[A-Za-z0-9_.+-]*[A-Za-z_][A-Za-z0-9_.+-]*$')
+
+
+def wire(sv):
+    """a string (per-atom value, property name, symbol) as one token of the request line: the model treats strings
+    as opaque, so anything that is not a plain word travels as '=' + hex of its UTF-8 bytes (decoded again when
+    the reply is compared)."""
+    sv = str(sv)
+    if _PLAIN.match(sv) and sv not in ('sel', 'err', '-'):
+        return sv
+    return '=' + sv.encode('utf-8').hex()
+
+
+def unwire(sv):
+    if isinstance(sv, str) and sv.startswith('=') and re.fullmatch(r'=([0-9a-f]{2})*', sv):
+        return bytes.fromhex(sv[1:]).decode('utf-8')
+    return sv
+
+
+def in_model(case):
+    """can the Lean model express the case?  Its arrays hold rationals, integers and strings: booleans, NaN,
+    infinities and the sign of zero are outside (those cases go through the clause oracle only)."""
+    def ok(a):
+        return a['dt'] != 'b' and a.get('flavour') != 'special'
+    if case['kind'] == 'uc':
+        return ok(case['arr'])
+    if case['kind'] in ('atoms', 'sys'):
+        return all(ok(p) for p in case['props'])
+    return case['kind'] != 'refuse'
 
 
 def _u(unit, fW, fR, name=None):
@@ -949,17 +1550,24 @@ def _arr_tokens(a):
     head = f"{a['dt']} {len(a['shape'])} " + ' '.join(str(s) for s in a['shape'])
     if a['dt'] == 'f':
         body = ' '.join(cm.fr(x) for x in a['data'])
+    elif a['dt'] == 's':
+        body = ' '.join(wire(x) for x in a['data'])
     else:
         body = ' '.join(str(x) for x in a['data'])
     return (head.strip() + ' ' + body).strip()
 
 
-def _box_tokens(b):
-    return ' '.join(cm.fr(x) for row in b['vects'] for x in row) + ' ' + ' '.join(cm.fr(x) for x in b['origin'])
+def _box_tokens(b, cell=None):
+    """the 12 numbers of a Box object.  `cell`: what the constructed object holds (its vects setter has zeroed
+    negligible entries); without it the documented clean-up is applied here."""
+    if cell is not None:
+        return ' '.join(cm.fr(x) for x in cell)
+    return ' '.join(cm.fr(x) for row in clean_cell(b['vects']) for x in row) + ' ' + ' '.join(cm.fr(x) for x in b['origin'])
 
 
 def _obj_line(case, r):
-    toks = ['obj', _box_tokens(case['box']), str(case['natoms'])] + [cm.fr(x) for x in case['pos']]
+    toks = ['obj', ' '.join(cm.fr(x) for row in case['box']['vects'] for x in row) + ' ' + ' '.join(cm.fr(x) for x in case['box']['origin']),
+            str(case['natoms'])] + [cm.fr(x) for x in case['pos']]
     for op, fac in zip(case['ops'], r.extra['facs']):       # the operations that were started
         o = op['op']
         toks.append(o)
@@ -969,11 +1577,14 @@ def _obj_line(case, r):
             toks += [cm.fr(x) for row in op['m'] for x in row]
         elif o == 'seto':
             toks += [cm.fr(x) for x in op['o']]
-        elif o in ('bread', 'sysdump'):
+        elif o == 'setp':
+            toks += [str(op['at']), cm.fr(op['v'])]
+        elif o in ('bread', 'sysdump', 'bdump'):
             u = op['unit']
             toks += [op['via'], _u(u, {u: fac[0]}, {u: fac[1]})]
             if o == 'bread':
-                toks.append(_box_tokens(op['box']))
+                toks.append(' '.join(cm.fr(x) for row in op['box']['vects'] for x in row) + ' '
+                            + ' '.join(cm.fr(x) for x in op['box']['origin']))
     return ' '.join(toks)
 
 
@@ -984,25 +1595,25 @@ def request_line(case, r: RealRun) -> str:
     if k == 'uc':
         return f"uc {via} {_u(case['unit'], r.fW, r.fR)} {_arr_tokens(case['arr'])}"
     if k == 'box':
-        return f"box {via} {_u(case['unit'], r.fW, r.fR)} {_box_tokens(case['box'])}"
-    props = ' '.join(f"{p['name']} {_u(p['unit'], r.fW, r.fR, p['name'])} {_arr_tokens(p)}"
+        return f"box {via} {_u(case['unit'], r.fW, r.fR)} {_box_tokens(case['box'], r.extra.get('cell'))}"
+    props = ' '.join(f"{wire(p['name'])} {_u(p['unit'], r.fW, r.fR, p['name'])} {_arr_tokens(p)}"
                      for p in case.get('props', []))
     if k == 'atoms':
         line = f"atoms {via} {case['natoms']} {len(case['props'])} {props}"
         if case.get('sel') is not None:
-            line += f" sel {len(case['sel'])} " + ' '.join(f"{e['name']} {_u(e['unit'], r.fW, r.fR, e['name'])}"
+            line += f" sel {len(case['sel'])} " + ' '.join(f"{wire(e['name'])} {_u(e['unit'], r.fW, r.fR, e['name'])}"
                                                            for e in case['sel'])
         return line.strip()
     if k == 'sys':
         symbols, ms = r.extra['symbols'], r.extra['masses']      # the System's state (padded with None)
-        syms = ' '.join('-' if s is None else s for s in symbols)
+        syms = ' '.join('-' if s is None else wire(s) for s in symbols)
         masses = ' '.join('-' if m is None else cm.fr(m) for m in ms)
         pbc = ' '.join('1' if b else '0' for b in case['pbc'])
-        line = (f"sys {via} {_u(case['box_unit'], r.fW, r.fR)} {_box_tokens(case['box'])} {pbc} "
+        line = (f"sys {via} {_u(case['box_unit'], r.fW, r.fR)} {_box_tokens(case['box'], r.extra.get('cell'))} {pbc} "
                 f"{len(symbols)} {syms} {len(ms)} {masses} {case['natoms']} "
                 f"{len(case['props'])} {props}").replace('  ', ' ')
         if case.get('sel') is not None:
-            line += f" sel {len(case['sel'])} " + ' '.join(f"{e['name']} {_u(e['unit'], r.fW, r.fR, e['name'])}"
+            line += f" sel {len(case['sel'])} " + ' '.join(f"{wire(e['name'])} {_u(e['unit'], r.fW, r.fR, e['name'])}"
                                                            for e in case['sel'])
         return line.strip()
     if k == 'ec':
@@ -1078,6 +1689,7 @@ def same_scalar(real, model, tol, path, out):
             out.append(f'{path}: implementation {real!r} != model {float(m)!r}')
         return
     if isinstance(model, bool) or model is None or isinstance(model, (int, str)):
+        model = unwire(model)
         if type(real) is not type(model) or real != model:
             out.append(f'{path}: implementation {real!r} ({type(real).__name__}) != model {model!r}')
         return
@@ -1116,11 +1728,12 @@ def same_atoms(real, model, tol, loose_names, loose, path, out):
     if real.natoms != m['natoms']:
         out.append(f"{path}: natoms {real.natoms} != model {m['natoms']}")
     names = real.prop()
-    mnames = [p[0] for p in m['props']]
+    mnames = [unwire(p[0]) for p in m['props']]
     if names != mnames:
         out.append(f'{path}: properties {names} != model {mnames}')
         return
     for name, marr in m['props']:
+        name = unwire(name)
         same_arr(real.view[name], marr, loose if name in loose_names else tol, f'{path}.{name}', out)
 
 
@@ -1129,8 +1742,8 @@ def same_sys(real, model, tol, loose_names, loose, out):
     same_box(real.box, m['box'], tol, 'box', out)
     if [bool(b) for b in real.pbc] != m['pbc'] or real.pbc.dtype.kind != 'b':
         out.append(f"pbc {real.pbc!r} != model {m['pbc']}")
-    if list(real.symbols) != m['symbols']:
-        out.append(f"symbols {real.symbols!r} != model {m['symbols']}")
+    if list(real.symbols) != [unwire(x) for x in m['symbols']]:
+        out.append(f"symbols {real.symbols!r} != model {[unwire(x) for x in m['symbols']]}")
     rm = list(real.masses)
     if len(rm) != len(m['masses']):
         out.append(f"masses {rm} != model {m['masses']}")
@@ -1151,11 +1764,18 @@ def _tol(case):
 
 
 def _loose(case):
+    """(rtol, atol) for box-scaled data: the 3x3 inverse of cells with condition number < 1e3 (|entries| <= 8 s,
+    |det| >= 8 s^3 for a common scale s) loses at most 1e-10 relative to the largest length involved - cell edge,
+    origin or position; nothing absolute: the bound scales with the case."""
     b = case.get('box')
-    L = 8.0
+    L = 8.0 * 2.0 ** case.get('scale', 0)
     if b is not None:
         L = max(abs(x) for row in b['vects'] for x in row) + max(abs(x) for x in b['origin'])
-    return (1e-10, 1e-10 * (1 + L))
+    P = 0.0
+    for p in case.get('props', []):
+        if p['dt'] in 'fi' and p['shape'][-1:] == [3] and len(p['shape']) >= 2:
+            P = max([P] + [abs(float(x)) for x in p['data'] if x == x and abs(x) != float('inf')])
+    return (1e-10, 1e-10 * (L + P))
 
 
 def _norm_close(real, model, rtol, path, out):
@@ -1206,6 +1826,8 @@ def compare_obj(case, r, reply):
             _norm_close(real['rel'], m['rel'], OBJ_RTOL, f'{tag} relative position', out)
         elif 'cart' in real:
             _norm_close(real['cart'], m['cart'], 1e-14, f'{tag} Cartesian position', out)
+        elif 'pos' in real:
+            _norm_close(real['pos'], m['pos'], 0.0, f'{tag} positions', out)
         elif 'box' in real:
             mb = dict(m['box'])
             for key in ('avect', 'bvect', 'cvect', 'origin'):
@@ -1306,7 +1928,18 @@ def compare(case, r: RealRun, reply):
     if k == 'sys':
         # a box-scaled property is read back through the re-read box, whose lengths are the written ones times
         # the box unit's factor ratio: the absolute rounding error scales with it
-        loose = (loose[0], loose[1] * max(1.0, float(_ratio(r, case['box_unit']))))
+        loose = (loose[0], loose[1] * float(_ratio(r, case['box_unit'])))
+        ov = case.get('override')
+        if ov:
+            # documented reader options: what is given at the call replaces what the record says
+            mr = dict(m['read'])
+            if 'symbols' in ov:
+                mr['symbols'] = [ov['symbols']] if isinstance(ov['symbols'], str) else list(ov['symbols'])
+            if 'pbc' in ov:
+                mr['pbc'] = list(ov['pbc'])
+            if 'masses' in ov:
+                mr['masses'] = ['~' + cm.fr(x) for x in ov['masses']]
+            m['read'] = Pairs(mr.items())
     if k == 'uc':
         same_arr(r.read, m['read'], TOL, 'read', out)
     elif k == 'box':
@@ -1326,7 +1959,7 @@ def _nontrivial(case):
 
 
 GENS = [('uc', gen_uc, 6), ('box', gen_box, 2), ('atoms', gen_atoms, 3), ('sys', gen_sys, 6), ('ec', gen_ec, 3),
-        ('obj', gen_obj, 3)]
+        ('obj', gen_obj, 3), ('refuse', gen_refusal, 1)]
 
 
 def _cases(rng, n):
@@ -1336,6 +1969,38 @@ def _cases(rng, n):
             yield g(rng)
 
 
+def _root(case):
+    """the generated case a (second-generation) case belongs to: what a replay file stores."""
+    return case.get('second_of', case)
+
+
+def _classes(case, cover):
+    """which input classes of the cross-cutting list a case exercises (counted into the evidence)."""
+    def hit(k):
+        cover[k] = cover.get(k, 0) + 1
+    arrs = [case['arr']] if case['kind'] == 'uc' else case.get('props', [])
+    for a in arrs:
+        if a.get('flavour'):
+            hit('values: ' + a['flavour'])
+        if a['dt'] == 'b':
+            hit('values: bool')
+        if a.get('form', 'c') != 'c':
+            hit('array form: ' + a['form'])
+        if a.get('name') in NAMES_ODD:
+            hit('property name: reserved / short / non-ASCII')
+    if case.get('natoms') == 1 and any(len(a['shape']) >= 2 for a in arrs):
+        hit('natoms = 1 with vector / tensor properties')
+    if case.get('scale'):
+        hit('magnitude 2^%+d' % case['scale'])
+    for k in ('again', 'override', 'prefill', 'mass_form', 'record'):
+        if case.get(k):
+            hit(k if k != 'again' else 'second dump of the same object after in-place edits')
+    if case['kind'] == 'sys' and case['via'] != 'tree':
+        hit('output: ' + case.get('io', 'str'))
+    if case['kind'] == 'refuse':
+        hit('refusal: ' + case['which'])
+
+
 def _brief(case):
     c = dict(case)
     if 'props' in c:
@@ -1343,6 +2008,7 @@ def _brief(case):
     if 'arr' in c:
         c['arr'] = {'dt': c['arr']['dt'], 'shape': c['arr']['shape']}
     c.pop('C', None)
+    c.pop('second_of', None)
     return c
 
 
@@ -1373,24 +2039,43 @@ def correspond_nest(ctx, n):
             ctx.disagree('nest', f'numpy reshape{tuple(dims)} vs model unflatten: ' + '; '.join(out[:3]), {'line': line})
 
 
+def _writable(c, rr):
+    """was the object of the case constructed (so that there is something to serialise and to ask the model about)?"""
+    if c['kind'] == 'ec':
+        return 'C' in rr.extra
+    if c['kind'] == 'sys':
+        return 'cell' in rr.extra
+    return not (rr.write_error or '').startswith('in-place edit raised')
+
+
 def correspond(ctx):
     rng = ctx.rng
     N = ctx.n(700, 12000)
     correspond_nest(ctx, ctx.n(150, 2000))
     runs = []
+    classes = {}
+    outside = 0
     try:
         for case in _cases(rng, N):
+            if case['kind'] == 'refuse':
+                continue
             r = run_real(case)
-            if (case['kind'] == 'ec' and 'C' not in r.extra) or (case['kind'] == 'sys' and 'masses' not in r.extra):
-                continue        # the object itself could not be constructed: nothing to serialise
-            runs.append((case, r, request_line(case, r), False))
-            if err_line(case, r) is not None:
-                runs.append((case, r, err_line(case, r), True))
+            _classes(case, classes)
+            for c, rr in generations(case, r):
+                if not in_model(c):
+                    outside += 1        # booleans / NaN / infinities / signed zero: clause oracle only
+                    continue
+                if not _writable(c, rr):
+                    continue            # the object itself could not be constructed: nothing to serialise
+                runs.append((c, rr, request_line(c, rr), False))
+                if err_line(c, rr) is not None:
+                    runs.append((c, rr, err_line(c, rr), True))
     finally:
         restore_units()
     replies = ctx.driver.ask_many([l for _, _, l, _ in runs])
     cover, cover_ec = {}, {}
     for (case, r, line, witherr), reply in zip(runs, replies):
+        gen2 = ' [second dump of the same object after in-place edits]' if 'second_of' in case else ''
         if case['kind'] == 'ec' and not witherr:
             key = case['cs'] + (' (crystal in that normal form)' if case['cs'] in EC_INFORM.get(case.get('form'), ()) else '')
             cover_ec[key] = cover_ec.get(key, 0) + 1
@@ -1412,43 +2097,82 @@ def correspond(ctx):
         diffs = compare(case, r, reply)
         if diffs:
             ctx.disagree(f"{case['kind']}:{case['via']}", f"{case['kind']} via {case['via']} (write {case['w1']}, "
-                         f"read {case['w2']}): " + '; '.join(diffs[:3]), {'case': case, 'line': line, 'diffs': diffs[:10]})
+                         f"read {case['w2']}){gen2}: " + '; '.join(diffs[:3]),
+                         {'case': _root(case), 'line': line, 'diffs': diffs[:10]})
     ctx.extra['unit_choices'] = cover
     ctx.extra['ec_crystal_system'] = dict(sorted(cover_ec.items()))
+    ctx.extra['input_classes'] = dict(sorted(classes.items()))
+    ctx.extra['outside_model'] = outside
 
 
 # ----------------------------------------------------------------------------------------
 # search: the round-trip clauses on the real code, exact rational expectations
 # ----------------------------------------------------------------------------------------
 def _expect_close(val, want: Fraction, rtol, atol):
-    return abs(Fraction(float(val)) - want) <= Fraction(atol) + Fraction(rtol) * abs(want)
+    import numpy as np
+    if isinstance(val, (int, np.integer)) and not isinstance(val, (bool, np.bool_)):
+        got = Fraction(int(val))            # integers exactly (not through a double)
+    else:
+        val = float(val)
+        if val != val or abs(val) == float('inf'):
+            return False
+        got = Fraction(val)
+    return abs(got - want) <= Fraction(atol) + Fraction(rtol) * abs(want)
 
 
-def _check_array(ctx, key, what, case, got, orig, ratio: Fraction, rtol, atol, keep_dtype):
-    """got (ndarray read back) must equal orig (spec array) * ratio, same shape (and dtype class)."""
+def _same_bits(g, o):
+    """two numbers are the same double, bit for bit (sign of zero, NaN = NaN) or the same integer."""
+    import struct
+    if isinstance(o, float):
+        return isinstance(g, float) and struct.pack('<d', g) == struct.pack('<d', o) or (g != g and o != o and isinstance(g, float))
+    return type(g) is type(o) and g == o
+
+
+def _check_array(ctx, key, what, case, got, orig, ratio: Fraction, rtol, atol, keep_dtype, exact=False):
+    """got (ndarray read back) must equal orig (spec array) * ratio, same shape (and dtype class).  `exact`: nothing
+    was converted (no unit): every element must come back bit for bit."""
     import numpy as np
     got = np.asarray(got)
+    rp = {'case': _root(case)}
     if list(got.shape) != list(orig['shape']):
-        ctx.violate(key + ':shape', f"{what}: shape {list(got.shape)} read back, {orig['shape']} written", {'case': case})
+        ctx.violate(key + ':shape', f"{what}: shape {list(got.shape)} read back, {orig['shape']} written", rp)
         return False
     flat = got.flatten().tolist()
     if orig['dt'] == 's':
-        if flat != list(orig['data']):
-            ctx.violate(key + ':value', f'{what}: strings {flat[:4]} read back, {orig["data"][:4]} written', {'case': case})
+        if flat != list(orig['data']) or got.dtype.kind not in 'US':
+            ctx.violate(key + ':value', f'{what}: strings {flat[:4]} ({got.dtype}) read back, {orig["data"][:4]} written', rp)
+            return False
+        return True
+    if orig['dt'] == 'b' and keep_dtype:
+        if got.dtype.kind != 'b' or flat != list(orig['data']):
+            ctx.violate(key + ':dtype', f'{what}: booleans {orig["data"][:4]} read back as {flat[:4]} ({got.dtype})', rp)
             return False
         return True
     if keep_dtype and orig['dt'] == 'i' and got.dtype.kind not in 'iu':
-        ctx.violate(key + ':dtype', f'{what}: integer data read back as {got.dtype}', {'case': case})
+        ctx.violate(key + ':dtype', f'{what}: integer data read back as {got.dtype}', rp)
+        return False
+    if keep_dtype and orig['dt'] == 'f' and got.dtype.kind != 'f':
+        ctx.violate(key + ':dtype', f'{what}: float data read back as {got.dtype}', rp)
         return False
     for i, (g, o) in enumerate(zip(flat, orig['data'])):
+        if exact and ratio == 1 and orig['dt'] in 'fi':
+            if orig['dt'] == 'i' and not keep_dtype:
+                same = g == o               # ('scaled' in Atoms.model alone: a division by 1, integers become floats)
+            else:
+                same = _same_bits(g, float(o) if orig['dt'] == 'f' else int(o))
+            if not same:
+                ctx.violate(key + ':exact', f'{what}: element {i} written as {o!r} without a unit (nothing to convert) '
+                            f'read back as {g!r}', rp)
+                return False
+            continue
         want = Fraction(o) * ratio
         try:
             ok = _expect_close(g, want, rtol, atol)
-        except (TypeError, ValueError):
+        except (TypeError, ValueError, OverflowError):
             ok = False
         if not ok:
             ctx.violate(key + ':value', f'{what}: element {i} read back as {g!r}, expected {float(want)!r} '
-                        f'(written {o!r}, working-unit ratio {float(ratio)!r})', {'case': case})
+                        f'(written {o!r}, working-unit ratio {float(ratio)!r})', rp)
             return False
     return True
 
@@ -1495,13 +2219,15 @@ def oracle_obj(ctx, case, r):
     if r.write_error is not None:
         ctx.violate('obj:create:raises', f'constructing the System/Box objects raised {r.write_error}', {'case': case})
         return False
-    V = [[F(x) for x in row] for row in case['box']['vects']]
+    V = clean_cell(case['box']['vects'])        # what the Box holds after its setter
     o = [F(x) for x in case['box']['origin']]
     pos = [F(x) for x in case['pos']]
     hist = []
     for i, (op, real, fac) in enumerate(zip(case['ops'], r.extra['outs'], r.extra['facs'])):
         name = op['op']
         hist.append(name)
+        if op.get('swap'):
+            hist[-1] += ' (written under the second configuration)'
         tag = f"object session (write {case['w1']}, read {case['w2']}), after {' > '.join(hist)}"
         rp = {'case': case, 'failed_op': i}
         if 'error' in real:
@@ -1530,15 +2256,24 @@ def oracle_obj(ctx, case, r):
                 ctx.violate('obj:relative-to-cartesian', f"{tag}: position_relative_to_cartesian({op['p']}) = {real['cart']}, "
                             f"expected {[float(x) for x in want]}", rp)
                 return False
+        elif name == 'setp':
+            pos[op['at']] = F(op['v'])
+            if [F(x) for x in real['pos']] != pos:
+                ctx.violate('obj:setp', f"{tag}: positions {real['pos']} after an in-place edit", rp)
+                return False
         else:
             if name == 'setv':
-                V = [[F(x) for x in row] for row in op['m']]
+                V = clean_cell(op['m'])
             elif name == 'seto':
                 o = [F(x) for x in op['o']]
             elif name == 'bread':
-                V = [[F(x) * ratio for x in row] for row in op['box']['vects']]
+                V = [[x * ratio for x in row] for row in clean_cell(op['box']['vects'])]
                 o = [F(x) * ratio for x in op['box']['origin']]
-            if name == 'sysdump':
+            if name == 'bdump':
+                b = real['box']
+                gotb = [b['avect'], b['bvect'], b['cvect'], b['origin']]
+                wantb = [[x * ratio for x in row] for row in V + [o]]
+            elif name == 'sysdump':
                 bx = real['read'].box
                 gotb = [bx.avect.tolist(), bx.bvect.tolist(), bx.cvect.tolist(), bx.origin.tolist()]
                 wantb = [[x * ratio for x in row] for row in V + [o]]
@@ -1548,7 +2283,7 @@ def oracle_obj(ctx, case, r):
                 wantb = V + [o]
             for g, w in zip(_flat(gotb), _flat(wantb)):
                 if not _expect_close(g, w, rt, 0):
-                    ctx.violate(f'obj:{name}:cell', f'{tag}: cell/origin {gotb}, expected '
+                    ctx.violate(f'obj:{name}:cell', f'{tag}: cell/origin {gotb} (in the units read), the object has '
                                 f'{[[float(x) for x in row] for row in wantb]}', rp)
                     return False
             if name == 'sysdump':
@@ -1566,20 +2301,51 @@ def oracle_obj(ctx, case, r):
     return True
 
 
+SIDE_WHAT = {
+    'write-twice': 'two writes of an unchanged object must agree and share nothing with each other',
+    'write-modifies-object': 'writing must not modify the object',
+    'arguments-modified': 'writing must not modify its arguments',
+    'input-modified': 'writing must not modify its input',
+    'read-modifies-tree': 'reading must not modify the tree it is given',
+}
+
+
+def oracle_refusal(ctx, case, r):
+    x = r.extra
+    tag = f"refusal {case['which']} ({case['via']}, {case['natoms']} atoms)"
+    if x.get('raised') is None:
+        ctx.violate(f"refuse:{case['which']}:accepted", f"{tag}: the call is documented to raise {x.get('expect')} but returned "
+                    f"{x.get('returned')}", {'case': case})
+        return False
+    if not x.get('ok'):
+        ctx.violate(f"refuse:{case['which']}:class", f"{tag}: raised {x['raised']} ({x.get('message')}), documented: {x['expect']}",
+                    {'case': case})
+        return False
+    return True
+
+
 def oracle(ctx, case, r: RealRun):
     """property clauses for one case. Returns True when everything held."""
     if case['kind'] == 'obj':
         return oracle_obj(ctx, case, r)
+    if case['kind'] == 'refuse':
+        return oracle_refusal(ctx, case, r)
     import numpy as np
     k, via = case['kind'], case['via']
+    rp = {'case': _root(case)}
     tag = f"{k} via {via} (write {case['w1']}, read {case['w2']})"
+    if 'second_of' in case:
+        tag += ' [second dump of the same object, after in-place edits ' + json.dumps(case['second_of']['again'])[:160] + ']'
     if k == 'ec' and case['cs'] not in EC_SYSTEMS and (r.write_error or '').startswith('ValueError: Invalid crystal_system'):
         return True         # the documented refusal of a crystal system normalized_as does not know
+    ok = True
+    for key, msg in r.side:
+        ctx.violate(f'{k}:{via}:{key}', f'{tag}: {msg} ({SIDE_WHAT[key]})', rp)
+        ok = False
     for stage, e in (('write', r.write_error), ('text', r.text_error), ('read', r.read_error)):
         if e is not None:
-            ctx.violate(f'{k}:{via}:{stage}-raises', f'{tag}: {stage} raised {e}', {'case': case})
+            ctx.violate(f'{k}:{via}:{stage}-raises', f'{tag}: {stage} raised {e}', rp)
             return False
-    ok = True
     rt = _tol(case)[0]
     if k == 'uc':
         u = case['unit']
@@ -1590,31 +2356,38 @@ def oracle(ctx, case, r: RealRun):
             _xml_singleton(ctx, case, tag)
             arr = dict(arr, shape=[])
         ok &= _check_array(ctx, f'uc:{via}', tag, case, r.read, arr, _ratio(r, u), rt, 0,
-                           keep_dtype=u is None)
+                           keep_dtype=u is None, exact=u is None)
         if 'eread_error' in r.extra:
-            ctx.violate(f'uc:{via}:error-raises', f"{tag}: value with error raised {r.extra['eread_error']}", {'case': case})
+            ctx.violate(f'uc:{via}:error-raises', f"{tag}: value with error raised {r.extra['eread_error']}", rp)
             ok = False
         elif 'eread' in r.extra:
             ok &= _check_array(ctx, f'uc:{via}:with-error', tag + ' value stored with an error', case, r.extra['eread'][0],
-                               arr, _ratio(r, u), rt, 0, keep_dtype=False)
+                               arr, _ratio(r, u), rt, 0, keep_dtype=False, exact=u is None)
             ok &= _check_array(ctx, f'uc:{via}:error', tag + ' error', case, r.extra['eread'][1],
-                               dict(arr, data=case['err']), _ratio(r, u), rt, 0, keep_dtype=False)
-        if ok and u not in (None, 'scaled') and case['arr']['dt'] != 's':
+                               dict(arr, data=case['err']), _ratio(r, u), rt, 0, keep_dtype=False, exact=u is None)
+        if ok and u not in (None, 'scaled') and case['arr']['dt'] in 'fi':
             # the physical value (expressed in the stored unit) is the same under both configurations
             phys = np.asarray(r.read, dtype=float).flatten() / r.fR[u]
             for g, o in zip(phys.tolist(), case['arr']['data']):
                 if not _expect_close(g, Fraction(o) / Fraction(r.fW[u]), 2 * rt, 0):
                     ctx.violate(f'uc:{via}:physical', f'{tag}: value in {u} is {g!r} after reading, '
-                                f'{o / r.fW[u]!r} when written', {'case': case})
+                                f'{o / r.fW[u]!r} when written', rp)
                     ok = False
                     break
         return ok
     if k == 'box':
         rb = Fraction(1) if case['unit'] is None else _ratio(r, case['unit'])
-        for name, got, orig in (('vects', r.read.vects, case['box']['vects']), ('origin', r.read.origin, [case['box']['origin']])):
-            flat = [x for row in orig for x in row]
-            ok &= _check_array(ctx, f'box:{via}:{name}', f'{tag} box {name}', case, np.asarray(got).flatten(),
-                               {'dt': 'f', 'shape': [len(flat)], 'data': flat}, rb, rt, 0, False)
+        cell = [float(x) for row in clean_cell(case['box']['vects']) for x in row]     # after the documented clean-up
+        for what, box, ratio in (('', r.read, rb), (' [same Box object written again under the reading configuration, read '
+                                                    'under the writing one]', r.extra.get('swapped'), 1 / rb)):
+            if box is None:
+                continue
+            for name, got, flat in (('vects', box.vects, cell), ('origin', box.origin, case['box']['origin'])):
+                ok &= _check_array(ctx, f'box:{via}:{name}', f'{tag} box {name}{what}', case, np.asarray(got).flatten(),
+                                   {'dt': 'f', 'shape': [len(flat)], 'data': flat}, ratio, rt, 0, False, exact=case['unit'] is None)
+        if 'swapped_error' in r.extra:
+            ctx.violate(f'box:{via}:again-raises', f"{tag}: writing the same Box again raised {r.extra['swapped_error']}", rp)
+            ok = False
         return ok
     if k == 'ec':
         rc = _ratio(r, case['unit'])
@@ -1626,19 +2399,19 @@ def oracle(ctx, case, r: RealRun):
         if cs in EC_INFORM.get(form, ()):
             # a crystal already in the normal form of `cs`: the constants come back unchanged
             ok &= _check_array(ctx, f'ec:{via}:{cs}', f"{tag} Cij of a {form} crystal stored as {cs}", case, r.read.Cij,
-                               {'dt': 'f', 'shape': [6, 6], 'data': r.extra['C']}, rc, 2 * rt, atol, False)
+                               {'dt': 'f', 'shape': [6, 6], 'data': [x for row in case['C'] for x in row]}, rc, 2 * rt, atol, False)
         if 'existing_error' in r.extra:
             ctx.violate(f'ec:{via}:existing-raises', f"{tag}: reading the model into an existing ElasticConstants raised "
-                        f"{r.extra['existing_error']}", {'case': case})
+                        f"{r.extra['existing_error']}", rp)
             ok = False
         elif 'existing' in r.extra and (r.extra['existing'][0] != r.read.Cij.flatten().tolist()
                                         or r.extra['existing'][1] != r.extra['fresh_S']):
             ctx.violate(f'ec:{via}:existing', f'{tag}: ec.model(model=...) on an existing object gives Cij/Sij different '
-                        f'from ElasticConstants(model=...)', {'case': case})
+                        f'from ElasticConstants(model=...)', rp)
             ok = False
         if 'read2_error' in r.extra:
             ctx.violate(f'ec:{via}:{cs}:second-raises', f"{tag}: storing the constants read back as {cs} again raised "
-                        f"{r.extra['read2_error']}", {'case': case})
+                        f"{r.extra['read2_error']}", rp)
             ok = False
         elif ok:
             got = r.read.Cij.flatten().tolist()
@@ -1652,28 +2425,38 @@ def oracle(ctx, case, r: RealRun):
     if k == 'sys':
         bu = case['box_unit']
         rL = _ratio(r, bu)
-        flatv = [x for row in case['box']['vects'] for x in row]
+        ov = case.get('override') or {}
+        flatv = [float(x) for row in clean_cell(case['box']['vects']) for x in row]    # after the documented clean-up
         ok &= _check_array(ctx, f'sys:{via}:cell', f'{tag} cell', case, r.read.box.vects.flatten(),
-                           {'dt': 'f', 'shape': [9], 'data': flatv}, rL, rt, 0, False)
+                           {'dt': 'f', 'shape': [9], 'data': flatv}, rL, rt, 0, False, exact=bu is None)
         ok &= _check_array(ctx, f'sys:{via}:origin', f'{tag} origin', case, r.read.box.origin,
-                           {'dt': 'f', 'shape': [3], 'data': case['box']['origin']}, rL, rt, 0, False)
+                           {'dt': 'f', 'shape': [3], 'data': case['box']['origin']}, rL, rt, 0, False, exact=bu is None)
         pbc = r.read.pbc
-        if pbc.dtype.kind != 'b' or [bool(b) for b in pbc] != case['pbc']:
-            ctx.violate(f'sys:{via}:pbc', f"{tag}: pbc {pbc!r} read back, {case['pbc']} written", {'case': case})
+        want_pbc = list(ov.get('pbc', case['pbc']))
+        if pbc.dtype.kind != 'b' or [bool(b) for b in pbc] != want_pbc:
+            ctx.violate(f'sys:{via}:pbc', f"{tag}: pbc {pbc!r} read back, {want_pbc} " +
+                        ('given to the reader (pbc=)' if 'pbc' in ov else 'written'), rp)
             ok = False
         ntypes = max(case['props'][0]['data'])
         want_sym = list(case['symbols']) + [None] * max(0, ntypes - len(case['symbols']))
-        if list(r.read.symbols) != want_sym:
-            ctx.violate(f'sys:{via}:symbols', f'{tag}: symbols {r.read.symbols!r} read back, {want_sym} written', {'case': case})
+        if 'symbols' in ov:
+            want_sym = [ov['symbols']] if isinstance(ov['symbols'], str) else list(ov['symbols'])
+        if list(r.read.symbols) != want_sym or not all(s is None or type(s) is str for s in r.read.symbols):
+            ctx.violate(f'sys:{via}:symbols', f'{tag}: symbols {r.read.symbols!r} read back, {want_sym} ' +
+                        ('given to the reader (symbols=)' if 'symbols' in ov else 'written'), rp)
             ok = False
         want_m = list(case['masses']) + [None] * max(0, len(want_sym) - len(case['masses']))
+        if 'masses' in ov:
+            want_m = list(ov['masses'])
         got_m = list(r.read.masses)
-        if len(got_m) != len(want_m) or any((a is None) != (b is None) or (a is not None and a != b)
+        if len(got_m) != len(want_m) or any((a is None) != (b is None) or (a is not None and (a != b or type(a) is not float))
                                             for a, b in zip(got_m, want_m)):
-            ctx.violate(f'sys:{via}:masses', f'{tag}: masses {got_m} read back, {want_m} written', {'case': case})
+            ctx.violate(f'sys:{via}:masses', f'{tag}: masses {got_m} read back, {want_m} ' +
+                        ('given to the reader (masses=)' if 'masses' in ov else 'written') +
+                        (f" (handed to the System as {case['mass_form']})" if case.get('mass_form') else ''), rp)
             ok = False
     if atoms.natoms != case['natoms']:
-        ctx.violate(f'{k}:{via}:natoms', f"{tag}: natoms {atoms.natoms} read back, {case['natoms']} written", {'case': case})
+        ctx.violate(f'{k}:{via}:natoms', f"{tag}: natoms {atoms.natoms} read back, {case['natoms']} written", rp)
         return False
     eprops = case['props']
     if case.get('sel') is not None:
@@ -1688,16 +2471,17 @@ def oracle(ctx, case, r: RealRun):
         eprops += [dict(byname[e['name']], unit=e['unit']) for e in case['sel'] if e['name'] not in ('atype', 'pos')]
     names = [p['name'] for p in eprops]
     if atoms.prop() != names:
-        ctx.violate(f'{k}:{via}:properties', f'{tag}: properties {atoms.prop()} read back, {names} written', {'case': case})
+        ctx.violate(f'{k}:{via}:properties', f'{tag}: properties {atoms.prop()} read back, {names} written', rp)
         return False
     for p in eprops:
         eu = None if p.get('default') else eff_unit(p['name'], p['unit'])
         if eu == 'scaled' and k == 'sys':
             ok &= _check_array(ctx, f'sys:{via}:scaled', f"{tag} scaled property {p['name']}", case, atoms.view[p['name']],
-                               p, rL, loose[0], loose[1] * max(1.0, float(rL)), False)
+                               p, rL, loose[0], loose[1] * float(rL), False)
         else:
-            ok &= _check_array(ctx, f"{k}:{via}:property", f"{tag} property {p['name']} (unit {eu})", case,
-                               atoms.view[p['name']], p, _ratio(r, eu), rt, 0, keep_dtype=eu is None)
+            ok &= _check_array(ctx, f"{k}:{via}:property", f"{tag} property {p['name']!r} (unit {eu})", case,
+                               atoms.view[p['name']], p, _ratio(r, eu), rt, 0, keep_dtype=eu is None,
+                               exact=eu is None or (eu == 'scaled' and k == 'atoms'))
     return ok
 
 
@@ -1709,10 +2493,12 @@ def search(ctx, broken):
     try:
         for case in pending:
             r = run_real(case)
-            oracle(ctx, case, r)
+            for c, rr in generations(case, r):
+                oracle(ctx, c, rr)
         for case in _cases(rng, N):
             r = run_real(case)
-            oracle(ctx, case, r)
+            for c, rr in generations(case, r):
+                oracle(ctx, c, rr)
             ctx.stats.case(f"oracle:{case['kind']}:{case['via']}", json.dumps(case, sort_keys=True, default=str),
                            nontrivial=_nontrivial(case))
     finally:
@@ -1733,20 +2519,21 @@ def replay(ctx, payload):
         return
     try:
         for case in cases:
+            case = _root(case)
             r = run_real(case)
-            print('replay', json.dumps(_brief(case), default=str))
-            print('  write_error', r.write_error, 'text_error', r.text_error, 'read_error', r.read_error)
-            if ctx.driver is not None and not (case['kind'] == 'ec' and 'C' not in r.extra) \
-                    and not (case['kind'] == 'sys' and 'masses' not in r.extra):
-                line = request_line(case, r)
-                diffs = compare(case, r, ctx.driver.ask(line))
-                if err_line(case, r) is not None:
-                    diffs += compare_err(case, r, ctx.driver.ask(err_line(case, r)))
-                for d in diffs[:10]:
-                    print('  model/implementation:', d)
-                if diffs:
-                    ctx.disagree(f"{case['kind']}:{case['via']}", '; '.join(diffs[:3]), {'case': case})
-            oracle(ctx, case, r)
+            for c, rr in generations(case, r):
+                print('replay', json.dumps(_brief(c), default=str))
+                print('  write_error', rr.write_error, 'text_error', rr.text_error, 'read_error', rr.read_error, 'side', rr.side)
+                if ctx.driver is not None and in_model(c) and _writable(c, rr):
+                    line = request_line(c, rr)
+                    diffs = compare(c, rr, ctx.driver.ask(line))
+                    if err_line(c, rr) is not None:
+                        diffs += compare_err(c, rr, ctx.driver.ask(err_line(c, rr)))
+                    for d in diffs[:10]:
+                        print('  model/implementation:', d)
+                    if diffs:
+                        ctx.disagree(f"{c['kind']}:{c['via']}", '; '.join(diffs[:3]), {'case': case})
+                oracle(ctx, c, rr)
     finally:
         restore_units()
 
